@@ -142,6 +142,21 @@ int main(int argc, char** argv) {
 		vm->scratchpad = own;
 		delete vm; randomx_release_cache(cache);
 	}
+	// the first arrow alone (input -> seed -> first scratchpad block) for input lengths around the 128-byte block boundaries of Blake2b
+	{
+		randomx_cache* cache = randomx_alloc_cache(RANDOMX_FLAG_DEFAULT);
+		uint8_t k0[4] = { 1, 2, 3, 4 }; randomx_init_cache(cache, k0, 4);
+		LVm* vm = new LVm(RANDOMX_FLAG_DEFAULT); g_vm = vm; vm->setCache(cache); vm->allocate();
+		uint8_t* own = vm->scratchpad; vm->scratchpad = g_sp; randomx_verif_sink = nullptr;
+		static const int lens[] = { 1, 63, 64, 65, 127, 128, 129, 255, 256, 257, 383, 384, 385, 512, 640, 1000, 1024, 4096 };
+		for (int len : lens) {
+			if (!thorough && len > 1100) continue;
+			std::vector<uint8_t> input = rng.bytes(len);
+			randomx_calculate_hash_first(vm, input.data(), input.size());
+			Line l; l.str("e", "h_seed").bytes("input", input).limbs("block", g_sp, 64); l.emit(out);
+		}
+		vm->scratchpad = own; delete vm; randomx_release_cache(cache);
+	}
 	fclose(out);
 	_exit(0);
 }
